@@ -202,13 +202,42 @@ type AccessResult struct {
 // isFresh reports whether base is an object allocated in this function
 // (constructor phase: not yet shared).
 func isFresh(base ssa.Value) bool {
-	r := RootOf(base)
-	switch x := r.(type) {
-	case *ssa.Alloc:
-		return true
-	case *ssa.Call:
-		if b, ok := x.Call.Value.(*ssa.Builtin); ok && b.Name() == "new" {
+	// walk through address arithmetic only (no loads): &x.f, &x[i]
+	for i := 0; i < 16; i++ {
+		switch x := base.(type) {
+		case *ssa.FieldAddr:
+			base = x.X
+			continue
+		case *ssa.IndexAddr:
+			base = x.X
+			continue
+		case *ssa.Alloc:
+			// the allocated object itself must be the struct (not a cell holding a pointer)
 			return true
+		case *ssa.Call:
+			if b, ok := x.Call.Value.(*ssa.Builtin); ok && b.Name() == "new" {
+				return true
+			}
+			return false
+		case *ssa.UnOp:
+			// a load of a local variable that only ever holds a fresh allocation (x := &T{}; captured)
+			if x.Op == token.MUL {
+				if cell, ok := x.X.(*ssa.Alloc); ok {
+					fresh, n := true, 0
+					for _, r := range Referrers(cell) {
+						if st, ok := r.(*ssa.Store); ok && st.Addr == ssa.Value(cell) {
+							n++
+							if _, isAlloc := st.Val.(*ssa.Alloc); !isAlloc {
+								fresh = false
+							}
+						}
+					}
+					return fresh && n > 0
+				}
+			}
+			return false
+		default:
+			return false
 		}
 	}
 	return false
@@ -282,6 +311,27 @@ func (lc *LockChecker) heldAt(fn *ssa.Function, at ssa.Instruction, basePath str
 	if lc.ls(fn).HeldAt(at)[want] {
 		return true, "holds " + want + " locally"
 	}
+	if len(visiting) > 8 {
+		return false, "lock " + want + " not held within 8 call levels"
+	}
+	// memo on (function, object path): the caller-summary answer does not depend on `at`
+	mkey := fn.String() + "|" + basePath
+	switch lc.heldMemo[mkey] {
+	case 1:
+		return true, "all callers hold the lock (memo)"
+	case 2:
+		return false, "lock " + want + " not held by some caller (memo)"
+	}
+	ok, why := lc.heldByCallers(fn, at, basePath, want, visiting)
+	if ok {
+		lc.heldMemo[mkey] = 1
+	} else if !strings.Contains(why, "recursive") {
+		lc.heldMemo[mkey] = 2
+	}
+	return ok, why
+}
+
+func (lc *LockChecker) heldByCallers(fn *ssa.Function, at ssa.Instruction, basePath, want string, visiting map[string]bool) (bool, string) {
 	// Caller summary: basePath must be rooted at a parameter (or receiver) or a
 	// free variable of fn; translate to the caller's path.
 	root, rest := splitRoot(basePath)
